@@ -185,8 +185,10 @@ def base_sections(db):
     ]
 
 
-def dump_db(path, mem=False, strict=True, size=None, with_trees=True, identifier=None):
-    """Returns (canonical string, db or None, exception or None)."""
+def dump_db(path, mem=False, strict=True, size=None, with_trees=True, identifier=None, between=None):
+    """Returns (canonical string, db or None, exception or None).  `between` (optional) is called between the
+    library calls (after construction, before the census, before every tree): the caller using its own file object"""
+    between = between or (lambda: None)
     try:
         db = Database(identifier if identifier is not None else path, store_in_memory=mem, file_size=size,
                       strict_format_checking=strict)
@@ -197,8 +199,10 @@ def dump_db(path, mem=False, strict=True, size=None, with_trees=True, identifier
             return "err @schema-sql " + classify(e), None, e
         return err(e), None, e
     try:
+        between()
         secs = base_sections(db)
         try:
+            between()
             pages = db.pages
             secs.append("census=" + ",".join(f"{n}:{p.page_type}" for n, p in pages.items()))
         except Exception as e:  # noqa
@@ -207,6 +211,7 @@ def dump_db(path, mem=False, strict=True, size=None, with_trees=True, identifier
         if with_trees:
             for r in db.master_schema.master_schema_b_tree_root_page_numbers:
                 try:
+                    between()
                     root = db.get_b_tree_root_page(r)
                     secs.append(f"tree{r}=" + show_tree(root, db))
                 except Exception as e:  # noqa
